@@ -16,7 +16,9 @@ pub enum Kind {
     Histo,
 }
 
-pub trait Est: Clone + Send + Sync {
+pub trait Est: Clone {
+    /// the public Debug representation (hidden state is visible here)
+    fn dbg(&self) -> String;
     const NAME: &'static str;
     const KIND: Kind;
     const HAS_MERGE: bool = true;
@@ -69,6 +71,9 @@ macro_rules! est_uni {
             }
             fn snap(&self) -> Snapshot {
                 Uni::snapshot(self)
+            }
+            fn dbg(&self) -> String {
+                format!("{:?}", self)
             }
             fn to_json(&self) -> Result<String, String> {
                 serde_json::to_string(self).map_err(|e| e.to_string())
@@ -141,6 +146,9 @@ macro_rules! est_pair {
             fn snap(&self) -> Snapshot {
                 Pair::snapshot(self)
             }
+            fn dbg(&self) -> String {
+                format!("{:?}", self)
+            }
             fn to_json(&self) -> Result<String, String> {
                 serde_json::to_string(self).map_err(|e| e.to_string())
             }
@@ -202,6 +210,9 @@ macro_rules! est_quantile {
             fn snap(&self) -> Snapshot {
                 vec![("len".into(), self.0.len() as f64), ("is_empty".into(), self.0.is_empty() as u8 as f64), ("p".into(), self.0.p()), ("quantile".into(), self.0.quantile())]
             }
+            fn dbg(&self) -> String {
+                format!("{:?}", self.0)
+            }
             fn to_json(&self) -> Result<String, String> {
                 serde_json::to_string(&self.0).map_err(|e| e.to_string())
             }
@@ -262,6 +273,9 @@ macro_rules! est_hist {
             }
             fn len_(&self) -> Option<u64> {
                 Some(Hist::bins(&self.0).iter().sum())
+            }
+            fn dbg(&self) -> String {
+                format!("{:?}", self.0)
             }
             fn is_empty_(&self) -> Option<bool> {
                 None
